@@ -79,23 +79,23 @@ def width(kernel):
 def lengths_of(kernel, tier):
     """Lengths per kernel. Every byte handled by a scalar tail / fall-back loop is a look-up in the 64 KiB product table,
     which costs CBMC ~7 s per byte, so table kernels get the boundary lengths of their own vector width; kernels without a
-    table (add, binary fma) get the full list."""
+    table (add, binary fma) get the full list.
+    Thorough adds lengths around the validated quick set.  Larger thorough sets (0..=136 for the add/binary kernels, 0..=V+1 resp.
+    0..9 plus the V/2V boundaries for the table kernels, all 16 scalar slices) were started twice but did not finish within
+    3.5 h resp. 75 min on this host while other runs were active, so they are NOT what the thorough tier claims."""
     kind = KERNELS[kernel][0]
     v = width(kernel)
     thorough = tier == "thorough"
     if kind in ("add", "bin"):
         # at least two full vector iterations of the widest kernel (loop-carried pointers/indices) + head/tail
-        ls = list(range(0, 137)) + [191, 192, 193] if thorough else [0, 1, 7, 8, 9, 15, 16, 17, 31, 32, 33, 63, 64, 65, 129]
+        ls = [0, 1, 7, 8, 9, 15, 16, 17, 31, 32, 33, 63, 64, 65, 129] + ([2, 3, 24, 47, 48, 96, 127, 128, 130] if thorough else [])
         if kind == "bin":
             # the SIMD binary kernels are only entered with non-empty operands (the dispatcher returns early)
-            ls = [x for x in ls if x > 0] if thorough else [1, 9, 31, 32, 33, 63, 64, 65, 128, 131, 192]      # the SIMD binary kernels are only entered with non-empty operands (dispatcher returns early)
-        return ls
+            ls = [1, 9, 31, 32, 33, 63, 64, 65, 128, 131, 192] + ([2, 17, 47, 96, 127, 129, 191] if thorough else [])
+        return sorted(set(ls))
     if v is None:            # fall-back kernels and the no_std public entry points
-        return list(range(0, 12)) if thorough else [0, 1, 2, 3, 9]
-    if thorough:
-        # (the full range 0..=V+1 for every table kernel did not finish within 3.5 h on this host)
-        return sorted(set(list(range(0, 10)) + [v - 1, v, v + 1, 2 * v - 1, 2 * v, 2 * v + 1]))
-    return [0, 1, v, v + 1, 2 * v + 1]
+        return sorted([0, 1, 2, 3, 9] + ([4, 7, 8] if thorough else []))
+    return sorted([0, 1, v, v + 1, 2 * v + 1] + ([2, v - 1, 2 * v] if thorough else []))
 
 
 def slice_len(kernel):
@@ -160,11 +160,11 @@ def describe(rep, tier):
          "octets::BinaryOctetVec::{new,len,padding_bits,select_mask,to_octet_vec}"]
     rep.bounds = {"lengths": "one harness per kernel and length (concrete length, exact heap allocations); add/binary kernels: %s; table kernels "
                              "(mul, fma) of vector width V: %s; fall-back kernels and no_std entry points: %s (see coverage.lengths_per_kernel)" % (
-        ("0..=136, 191..193", "0..9, V-1, V, V+1, 2V-1, 2V, 2V+1", "0..=11") if tier == "thorough" else ("0,1,7,8,9,15,16,17,31,32,33,63,64,65,129 (binary: 1,9,31,32,33,63,64,65,128,131,192)", "0,1,V,V+1,2V+1", "0,1,2,3,9")),
+        ("the quick lengths plus 2,3,24,47,48,96,127,128,130", "0,1,2,V-1,V,V+1,2V,2V+1", "0,1,2,3,4,7,8,9") if tier == "thorough" else ("0,1,7,8,9,15,16,17,31,32,33,63,64,65,129 (binary: 1,9,31,32,33,63,64,65,128,131,192)", "0,1,V,V+1,2V+1", "0,1,2,3,9")),
         "contents": "all byte values symbolic",
         "scalar": "kernels without a table (add, binary fma): all 256 values at every length; table kernels (mul, fma): every length at the fixed "
                   "scalars listed in the obligation names, plus 16-value scalar slices at one length per kernel (a full vector and a tail byte); "
-                  "thorough runs all 16 slices = all 256 scalars",
+                  "thorough runs 4 of the 16 slices and a second fixed scalar",
         "packed bit vector": "all ceil(L/64) words symbolic"}
     rep.stubs = ["_mm_shuffle_epi8 / _mm256_shuffle_epi8 / _mm512_shuffle_epi8: per-lane table look-up model (Kani has no model of the LLVM pshufb intrinsic)",
                  "_bextr2_u32: shift-and-mask model", "both validated against this host's CPU by tools/validate_stubs (setup)"]
@@ -180,4 +180,4 @@ def run(ctx):
     describe(ctx.report, ctx.tier)
     thorough = ctx.tier == "thorough"
     run_kernels(ctx, "c11", ctx.tier, const_scalars=(0x53, 0x02) if thorough else (0x53,),
-                slices=tuple(range(16)) if thorough else (5,), timeout_s=2400 if thorough else 600, mem_gb=24 if thorough else 14)
+                slices=(0, 5, 10, 15) if thorough else (5,), timeout_s=2400 if thorough else 600, mem_gb=24 if thorough else 14)
